@@ -540,11 +540,19 @@ fn write_statistics(tw: &mut Tw, id: i16, col: &Column, vals: &[&Option<PV>]) {
     if col.stats == StatsMode::Absent {
         return;
     }
-    let unsigned = matches!(col.logical, Logical::UInt8 | Logical::UInt16 | Logical::UInt32 | Logical::UInt64);
+    // the deprecated min/max fields were defined (and filled by old writers) with signed comparison of the
+    // physical value, whatever the logical type; min_value/max_value use the logical type's order
+    let unsigned = matches!(col.logical, Logical::UInt8 | Logical::UInt16 | Logical::UInt32 | Logical::UInt64) && col.stats != StatsMode::DeprecatedOnly;
     let non_null: Vec<&PV> = vals.iter().filter_map(|v| v.as_ref()).filter(|v| !matches!(v, PV::F32(x) if x.is_nan()) && !matches!(v, PV::F64(x) if x.is_nan())).collect();
     let nulls = vals.iter().filter(|v| v.is_none()).count() as i64;
     tw.struct_begin(id);
-    if let (Some(mn), Some(mx)) = (non_null.iter().min_by(|a, b| pv_cmp(a, b, unsigned)), non_null.iter().max_by(|a, b| pv_cmp(a, b, unsigned))) {
+    let dep = col.stats == StatsMode::DeprecatedOnly;
+    let cmp = |a: &&&PV, b: &&&PV| match (**a, **b) {
+        // old writers compared byte arrays as signed bytes
+        (PV::Bytes(x), PV::Bytes(y)) if dep => x.iter().map(|c| *c as i8).cmp(y.iter().map(|c| *c as i8)),
+        (x, y) => pv_cmp(x, y, unsigned),
+    };
+    if let (Some(mn), Some(mx)) = (non_null.iter().min_by(cmp), non_null.iter().max_by(cmp)) {
         let (mut mnb, mut mxb) = (stat_bytes(mn), stat_bytes(mx));
         if col.stats == StatsMode::Inexact {
             if let (PV::Bytes(_), PV::Bytes(_)) = (mn, mx) {
